@@ -36,6 +36,10 @@ CHECKS = {
    text="Children running under real uid R (0, 1, 999, 2^16-1, 2^16, 2^31-1, 2^31, 2^32-2) with an unrelated effective uid consult only_uid:L, exclude_uid:L and only_root through the production library for generated lists with near misses; outcomes are compared with exact set membership and only_uid xor exclude_uid.",
    note="Lists limited to one config line (about 85 uids)."),
 
+ "C16": dict(level="exploration", design="3/C16", technique="runtime monitoring: before/at-real-exec/after snapshots of process state + interposed allocator with backtrace attribution",
+   text="For runs of one warm-up plus 2..200 wrapped calls under generated configurations (every data source, every output including unreachable, full and unwritable sinks, filters with empty arguments, invalid and duplicate options, error logging), uids, stdin kinds and controlling ttys, the driver compares /proc/self/fd (targets + cloexec), environ pointer and hash, cwd, umask, signal mask, all sigactions and the lock depth before the call, at the instant the real exec is entered and after return; an interposed allocator attributes live blocks to Snoopy by backtrace and demands that nothing allocated during a call is live at the real exec and that the live count does not grow over the run. Thread-safe and non-thread-safe builds.",
+   note="Allocator attribution by backtrace (first 10 frames); libc one-time caches absorbed by the warm-up call; the strace-injected error paths share this oracle in the C03 check's residue arm."),
+
  "C18": dict(level="exploration", design="3/C18-C19", technique="runtime monitoring of the real snoopyctl against a reference model, exhaustive over small files",
    text="The snoopyctl built from the working tree is run (enable, enable again, status) on every ld.so.preload content of up to 3 (quick) / 4 (thorough) lines over an 18-kind line alphabet, terminated and unterminated, plus absent/empty and thousands of random files; file bytes, exit status and status output are compared with preload_model. Exhaustive for the enumerated small files, sampled beyond.",
    note="Trusts the SNOOPY_TEST_* path overrides (the suite's own mechanism) and the model of 'comment line' / 'active entry' in DESIGN A.3; open points of the property accept several outcomes."),
